@@ -294,7 +294,7 @@ class ParallelTempering:
         start_time = time()
         end_time = start_time + run_time
 
-        N = 1
+        N, cycle_time = 1, 1e-2
         if run_time > 0:  # with no time budget at all, no steps are taken
             # estimate how long it takes to do one swap cycle
             t1 = time()
@@ -304,12 +304,15 @@ class ParallelTempering:
 
             # number of cycles chosen to give a print-out roughly every 2 seconds
             # (a cycle faster than the resolution of the clock is counted as 10 ms)
-            N = max(1, int(2.0 / max(t2 - t1, 1e-2)))
+            cycle_time = max(t2 - t1, 1e-2)
+            N = max(1, int(2.0 / cycle_time))
 
         # (elapsed time is compared with the budget: a budget below the spacing of
         # the clock's absolute readings would be rounded away in start_time + run_time)
         while time() - start_time < run_time:
-            for i in range(N):
+            # (no more cycles than fit into the budget which is left)
+            remaining = run_time - (time() - start_time)
+            for i in range(max(1, min(N, int(remaining / cycle_time)))):
                 self.take_steps(swap_interval)
                 self.swap()
 
